@@ -1088,8 +1088,10 @@ func (vm *VirtualMachine) importModule(ctx context.Context, name string) (*objec
 	baseSP := vm.sp
 	code := vm.loadCode(module.Code())
 	vm.activateCode(vm.fp+1, 0, code)
-	// Restore the previous frame when done
-	defer vm.resumeFrame(baseFP, baseIP, baseSP)
+	// Restore the previous frame when done. Whatever the module's top-level
+	// code left on the stack (the value of its last statement) is discarded: an
+	// import produces the module, nothing else.
+	defer vm.unwindFrame(baseFP, baseIP, baseSP)
 	// Evaluate the module code
 	if err := vm.eval(ctx); err != nil {
 		return nil, err
